@@ -1222,7 +1222,16 @@ class StateEngine(object):
                 results = branch_results["results"]
                 results[index] = "__TERMINATED__"
 
-                if parent_terminated:
+                """
+                The enclosing state's slot is only resolved here if this
+                nested Map/Parallel state was still going when the enclosing
+                state was terminated (nothing else will ever resolve it). If
+                it had already failed by itself this is a straggler of that
+                failed attempt: the slot belongs to whatever the failure led
+                to (the state being retried, or its Catcher's Next state),
+                which may not have been dropped yet.
+                """
+                if parent_terminated and not terminated:
                     #print("Terminating parent branch {}".format(parent_index))
                     parent_results[parent_index] = "__TERMINATED__"
 
